@@ -54,6 +54,10 @@ def _cases(tier):
                 for F in 'RNX':
                     out.append({'answers': 'A' * a + F * f + 'A' * b, 'out': outs[k % 2], 'data': datas[(k // 2) % 4], 'pre': 'fresh', 'kw': False}); k += 1
                 out.append({'answers': 'A' * a + ('RNX' * f)[:f] + 'A' * b, 'out': 'str', 'data': 'same', 'pre': 'fresh', 'kw': False})
+    # results whose length differs from trace to trace (6 / 4 / 2 samples by trace index), every accept/reject pattern up to 5 traces
+    for n in range(1, 6):
+        for seq in itertools.product('ARN', repeat=n):
+            out.append({'answers': ''.join(seq), 'out': outs[k % 2], 'data': 'varying', 'pre': 'fresh', 'kw': False}); k += 1
     # history: check() (the documented dry run on randomly picked traces) before run() on the same object
     for n in range(1, (4 if tier == 'quick' else 5) + 1):
         for seq in itertools.product('ARN', repeat=n):
@@ -88,6 +92,7 @@ def _data(tr_row, i, kind, scale):
     if kind == 'short': return tr_row[1:4].astype('uint8') * scale
     if kind == 'long': return np.concatenate([tr_row, tr_row[:3]]).astype('int16') * scale - 7
     if kind == 'float': return tr_row.astype('float32') * 0.5 * scale + i
+    if kind == 'varying': return (tr_row[:6 - 2 * (i % 3)].astype('uint8') // 2 * scale + 1).astype('uint8')          # 6, 4 or 2 samples depending on the trace, never a zero
     raise ValueError(kind)
 
 
@@ -150,6 +155,11 @@ def execute(case, tmpdir, seed=0):
     holder['s'] = s
     acc = [i for i, a in enumerate(ans) if a == 'A']
     exp_rows = [_data(tr[i], i, case['data'], scale) for i in acc]
+    if case['data'] == 'varying' and acc:
+        # results of different lengths go into one rectangular set whose row length is fixed by the first accepted trace: a longer result is cut, a shorter one is
+        # followed by filler zeros - in particular by nothing that another trace returned
+        L0 = len(exp_rows[0])
+        exp_rows = [np.concatenate([r[:L0], np.zeros(max(0, L0 - len(r)), r.dtype)]) for r in exp_rows]
     res = None
     if case.get('check_first'):
         import io, contextlib
